@@ -233,6 +233,25 @@ def _units(F, r4):
         else:
             failed = [name for name, es in res.items() if any(q.succeeded(e) is False for e in es)]
             r4.require(bool(failed), (fn, "spurious-error"), "validate_decoded_credential rejects although no check failed — path: %s" % q.describe()[-160:])
+            # what is reported: with AllErrors the error of *every* failing check (so every configured check ran, whatever else failed), with
+            # FirstError exactly one of them
+            mode = next((v_ for t_, v_ in q.variant.items() if t_ == SR.param("fail_fast")), None)
+            errs = None
+            rt = sym.term(q.ret)
+            for x in sym.subterms(rt):
+                if isinstance(x, tuple) and len(x) == 2 and x[0] == "validation_errors" and isinstance(x[1], tuple) and x[1][:1] == ("list",):
+                    errs = list(x[1][1:])
+            fails = [("payload", e.result.t, "Err", 0) for name in checks for e in res[name] if q.succeeded(e) is False]
+            if mode == "AllErrors":
+                for name in checks:
+                    if name == "check_subject_holder_relationship" and SR.variant(q, SR.fld("subject_holder_relationship", base=OPT)) == "None":
+                        continue
+                    r4.require(len(res[name]) == 1, (fn, "all-errors", name), "with FailFast::AllErrors %s is not run on a rejecting path (it is skipped when another check has failed): its failure would go unreported — path: %s" % (name, q.describe()[-140:]))
+                r4.require(errs is not None and sorted(map(repr, errs)) == sorted(map(repr, fails)), (fn, "all-errors", "collected"),
+                           "with FailFast::AllErrors the reported errors are not exactly those of the failing checks: reported %s, failed %s" % (
+                               [sym.fmt(x)[:50] for x in (errs or [])], [sym.fmt(x)[:50] for x in fails]))
+            elif mode == "FirstError":
+                r4.require(errs is not None and len(errs) == 1 and errs[0] in fails, (fn, "failfast", "FirstError"), "with FailFast::FirstError the report is not exactly one failing check's error: %s" % [sym.fmt(x)[:50] for x in (errs or [])])
     for name in checks:
         r4.site("unit %s: called with the credential and the configured bound, result required on %d accepting path(s)" % (name, n))
     r4.site("Ok ⇔ no check failed; the validated token is returned")
